@@ -300,9 +300,17 @@ class _FuncAnalysis:
             self.env.setdefault(b.id, set()).update(content(v, n))
 
     def effect_on(self, target_val, what, node, sources=frozenset(), chain=None):
+        a = self.f.node.args if not isinstance(self.f.node, ast.Lambda) else None
+        star = set()
+        if a is not None:
+            for x in (a.vararg, a.kwarg):
+                if x is not None and x.arg in self.param_names:
+                    star.add(self.param_names.index(x.arg))
         for root, lvl in target_val:
             if lvl[0] != 'R':
                 continue
+            if root[0] == 'p' and root[1] in star and lvl[1] == 0:
+                continue        # the **kwargs dict / *args tuple itself is created by the call: changing it is not visible outside
             e = Effect(root, lvl[1], what, self.loc(node), self.f.qualname,
                        frozenset(sources), chain or (self.f.qualname,))
             self.s.effects.setdefault(e.key(), e)
